@@ -3,6 +3,9 @@
 (* plain samples / physically merged samples) was executed for real; a run   *)
 (* is logged as                                                              *)
 (*   [prog, group, units : Seq([m : Seq(Int), merged : BOOLEAN]),            *)
+(*    layout : STRING   (where the base samples' alignments are stored:      *)
+(*                       "sep" one file per sample, "one" / ... several      *)
+(*                       samples in one multi-sample file),                  *)
 (*    names, expected : Seq(STRING)   (emitted / expected column names),     *)
 (*    loci : Seq([id, alts : Seq(STRING),                                    *)
 (*                cols : Seq([stats : Seq(Val), seqs : Seq(STRING),          *)
@@ -39,7 +42,11 @@ Comparable(A, B) == A.prog = B.prog /\ A.group = B.group /\ ContentSubset(A.unit
 
 (* pairs of (unit index in A, unit index in B) with the same content          *)
 Shared(A, B) == {<<x, y>> \in (1..Len(A.units)) \X (1..Len(B.units)) : SameContent(A.units[x], B.units[y])}
-Tolerant(A, B, p) == A.units[p[1]].merged # B.units[p[2]].merged
+(* the same content from different inputs: a pool against the physically merged sample, *)
+(* or the same (pool of) base samples read from differently laid out alignment files    *)
+CrossMerged(A, B, p) == A.units[p[1]].merged # B.units[p[2]].merged
+CrossStorage(A, B, p) == ~CrossMerged(A, B, p) /\ ~A.units[p[1]].merged /\ A.layout # B.layout
+Tolerant(A, B, p) == CrossMerged(A, B, p) \/ CrossStorage(A, B, p)
 SameLoci(A, B) == Len(A.loci) = Len(B.loci) /\ \A l \in 1..Len(A.loci) : A.loci[l].id = B.loci[l].id
 
 (* ---- the clauses -------------------------------------------------------------- *)
@@ -70,7 +77,14 @@ PerSequenceValues(A, B) ==
 (* a pool equals the sample that physically holds the union of its reads            *)
 PoolIsUnion(A, B) ==
   \A l \in 1..Len(A.loci) : \A p \in Shared(A, B) :
-    Tolerant(A, B, p) =>
+    CrossMerged(A, B, p) =>
+      /\ SameVals(A.loci[l].cols[p[1]].stats, B.loci[l].cols[p[2]].stats, TRUE)
+      /\ (A.prog # "assemble" => A.loci[l].cols[p[1]].seqs = B.loci[l].cols[p[2]].seqs)
+(* ... wherever the members' alignments are stored: the same unit read from one file  *)
+(* per sample and from a file shared by several samples gives the same column         *)
+StorageIndependent(A, B) ==
+  \A l \in 1..Len(A.loci) : \A p \in Shared(A, B) :
+    CrossStorage(A, B, p) =>
       /\ SameVals(A.loci[l].cols[p[1]].stats, B.loci[l].cols[p[2]].stats, TRUE)
       /\ (A.prog # "assemble" => A.loci[l].cols[p[1]].seqs = B.loci[l].cols[p[2]].seqs)
 (* the same units in another order: same columns (covered above), same ALT set       *)
@@ -89,7 +103,7 @@ ColumnsArePermutation(A) ==
   /\ \A x, y \in 1..Len(A.names) : A.names[x] = A.names[y] => x = y
 
 ClauseNames == <<"SameLoci", "ColumnIndependent", "AssembleStats", "AssembleMonotone", "PerSequenceValues",
-                 "PoolIsUnion", "OrderPermutes">>
+                 "PoolIsUnion", "StorageIndependent", "OrderPermutes">>
 Holds(c, A, B) ==
   CASE c = "SameLoci" -> SameLoci(A, B)
     [] c = "ColumnIndependent" -> ColumnIndependent(A, B)
@@ -97,6 +111,7 @@ Holds(c, A, B) ==
     [] c = "AssembleMonotone" -> AssembleMonotone(A, B)
     [] c = "PerSequenceValues" -> PerSequenceValues(A, B)
     [] c = "PoolIsUnion" -> PoolIsUnion(A, B)
+    [] c = "StorageIndependent" -> StorageIndependent(A, B)
     [] c = "OrderPermutes" -> OrderPermutes(A, B)
 Failing(A, B) ==
   IF ~SameLoci(A, B) THEN <<"SameLoci">>
